@@ -144,7 +144,8 @@ def main(ctx):
                        "[?...] on []any, map and gen documents, GetNodes and Script.Eval; plus seeded random && || ! nesting to depth 3 "
                        "re-parsed from Script.String(). distinct_nontrivial = distinct (operator, left kind, right kind) cells judged. "
                        "Every outcome is judged by TLC evaluating Script!Expect on the logged AST and data (TraceScript).")
-    ctx.cov["exhaustive"] = "within the value universe of ScriptGen"
+    ctx.cov["exhaustive"] = False
+    ctx.cov["exhaustive_within"] = "the cell matrix over the value universe of ScriptGen is enumerated completely; nesting is sampled"
     ctx.assumptions += ["Script.tla is the reading of the operator documentation and the statement; cells they leave open are ANY (listed as ALLOW)",
                         "Go regexp facts for the fixed pattern set are supplied by the harness (DESIGN 7.2)",
                         "floats are small dyadic rationals so that TLC compares exactly"]
